@@ -100,3 +100,12 @@ package scheduler
 //@   at[placenode] call objects.Node.AddAllocation#2: assert arg0 == node && node != nil && arg1 == existing
 //@   at[placeapp] call objects.Application.AddAllocation#2: assert arg0 == app && arg1 == existing
 //@   ensures[nil] alloc == nil ==> !requestCreated && !allocCreated && err == nil
+
+// every allocation of the request that is not processed is answered with a rejection: nothing is dropped silently
+//@ func (cc *ClusterContext) processAllocations(request *si.AllocationRequest)
+//@   props C13 C04
+//@   sweep
+//@   mode nopanic=off
+//@   holds forall i int :: 0 <= i && i < len(request.Allocations) ==> request.Allocations[i] != nil
+//@   at[notdropped] call scheduler.PartitionContext.UpdateAllocation#1: assert arg1 != nil && arg0 == partition && partition != nil
+//@   at[rejectpartition] append rejectedAllocs#1: assert partition == nil && elem.AllocationKey == siAlloc.AllocationKey && elem.ApplicationID == siAlloc.ApplicationID
